@@ -527,13 +527,20 @@ def prove_address_and_state(src_root, ex: Explorer):
         oport = [0, 2235][ctx.choose(2, 'obfuscated-port')]
         resp = Stub('GetPeerAddress.Response', ip='0.0.0.0' if no_ip else '1.2.3.4', port=port, obfuscated_port=oport)
         w.net.attrs['server_connection'] = Stub('server', send_message=Recorder('send', is_async=True))
-        it.hooks[f'{NET}:Network.create_server_response_future'] = lambda it2, f, a, k: A.SimpleAwaitable(it2.aio, 'resp', lambda it3: (Opaque('conn'), resp))
+        waits = []
+        it.hooks[f'{NET}:Network.create_server_response_future'] = lambda it2, f, a, k: \
+            (waits.append((a[1], k.get('fields', a[2] if len(a) > 2 else None))), A.SimpleAwaitable(it2.aio, 'resp', lambda it3: (Opaque('conn'), resp)))[1]
+        it.hooks[f'{NET}:Network.wait_for_server_message'] = lambda it2, f, a, k: \
+            (waits.append((a[1], k.get('fields', a[2] if len(a) > 2 else None))), A.SimpleAwaitable(it2.aio, 'resp', lambda it3: resp))[1]
         try:
             r = run(it, it.getattr(w.net, '_get_peer_address'), 'bob')
             raised = None
         except PyRaise as pr:
             r, raised = None, pr.exc.cls.name
         tag = f'ip={"none" if no_ip else "ok"},port={port},obfuscated={oport}'
+        # the answer that is awaited is the address of THIS user (several lookups are pending at the same time)
+        ctx.prove('C11.peer-address.waits-for-user', len(waits) == 1 and isinstance(waits[0][1], dict) and waits[0][1].get('username') == 'bob',
+                  f'the address of bob is awaited as {[(getattr(c, "qual", c), f) for c, f in waits]}: the answer for another user completes it')
         if no_ip or (port == 0 and oport == 0):
             ctx.prove(f'C11.peer-address[{tag}]', raised == 'PeerConnectionError')
         else:
